@@ -248,7 +248,9 @@ def run(tier, seed):
     ck = Check("C14", tier, seed)
     ck.trusted += ["tools/go2coq (Go->Gallina translator for hasSize, Pages, Size, MemoryPagesToBytesNum, memoryBytesNumToPages, Memory.Validate, newMemorySizer)",
                    "hand transcription of Grow/Read*/Write* control flow in coq/Rt/MemInst.v, tied by the correspondence run",
-                   "harness/c14 (Go) and checks/c14.py (case conversion, oracle)"]
+                   "hand transcription of decodeMemory (shared), NewMemoryInstance and all branches of Grow (allocator answer, shared) in coq/Rt/MemInstX.v, "
+                   "tied by the extended correspondence run (observations AND the allocator's request log)",
+                   "harness/c14 (Go; its allocator keeps the allocator contract whenever it answers) and checks/c14.py (case conversion, oracles)"]
     ck.assumptions += ["api.Memory.Size() wrapping to 0 at 65536 pages is documented behaviour, modelled as such",
                        "the allocator is an arbitrary oracle for WHETHER it answers; when it answers it keeps its contract (a buffer of the requested "
                        "length, old contents kept, new bytes zero, same address for shared memories)",
